@@ -235,7 +235,21 @@ def base_vals(case, where_c, where_p, bc, bp):
             {pn[a]: pts_render(v, sp.get(("p", a))) for a, v in bp.items()})
 
 
+VIEW_ERRORS = []
+VIEW_ONLY = []
+
+
 def view_of(sc, model="dsl"):
+    """state of the scenario object and of its model object as the anchors name it; when it cannot be read (an attribute was renamed …) the
+    view is None: results are still checked, the structural tie is reported without a concrete accusation"""
+    try:
+        return _view_of(sc, model)
+    except Exception as e:
+        VIEW_ERRORS.append(f"{type(e).__name__}: {e}")
+        return None
+
+
+def _view_of(sc, model="dsl"):
     mod = sc.model
     pn = pnames(model)
     return {"consts": {CONSTS.index(k): ccode(v) for k, v in sc.constants.items()},
@@ -400,6 +414,14 @@ SIB = {}      # case number -> {"views": {name: (view, results)}, "base": {...}}
 
 
 def base_of(b, model):
+    try:
+        return _base_of(b, model)
+    except Exception as e:
+        VIEW_ERRORS.append(f"{type(e).__name__}: {e}")
+        return None
+
+
+def _base_of(b, model):
     mg = b.scenario_manager_factory.scenario_managers["mf"]
     pn = pnames(model)
     return {"bc": {CONSTS.index(k): ccode(v) for k, v in mg.base_constants.items()},
@@ -825,7 +847,7 @@ def probe_owns_dicts(root):
             b.register_scenario_manager({"mf": {"model": K.build(DEF_CONST, DEF_PTS, DEF_RS), "base_constants": {"c0": 4.0},
                                                 "base_points": {"p0": K.pts_val(4)}}})
             b.register_scenarios(scenarios={"a": {}, "b": {}}, scenario_manager="mf")
-            b.get_scenario("mf", "a").configure_settings(copy.deepcopy(stg))
+            b.begin_session(scenarios=["a"], scenario_managers=["mf"], equations=list(EQS), settings={"mf": {"a": copy.deepcopy(stg)}}); b.end_session()
             b.register_scenarios(scenarios={"late": {}}, scenario_manager="mf")
             mg = b.scenario_manager_factory.scenario_managers["mf"]
             detail["dict"] = all(ccode(x["c0"]) == 4 for x in (b.get_scenario("mf", "b").constants, b.get_scenario("mf", "late").constants, mg.base_constants)) \
@@ -841,7 +863,7 @@ def probe_owns_dicts(root):
         try:
             b = bptk(); quiet_bptk_logging()
             mg = b.scenario_manager_factory.scenario_managers["mf"]
-            mg.scenarios["s0"].configure_settings(copy.deepcopy(stg))
+            b.begin_session(scenarios=["s0"], scenario_managers=["mf"], equations=list(EQS), settings={"mf": {"s0": copy.deepcopy(stg)}}); b.end_session()
             detail["file"] = all(ccode(x["c0"]) == 4 for x in (mg.scenarios["sib"].constants, mg.scenarios["t0"].constants, mg.base_constants)) \
                 and all(pcode(x["p0"]) == 4 for x in (mg.scenarios["sib"].points, mg.scenarios["t0"].points, mg.base_points))
         except Exception as e:
@@ -854,23 +876,39 @@ def probe_owns_dicts(root):
 
 
 def probe(root):
-    from BPTK_Py.sdsimulation import SdSimulation
-    facts = {}
-    m = K.build(DEF_CONST, DEF_PTS, DEF_RS)
-    SdSimulation(model=m, name="probe").change_runspecs(starttime=1.0, stoptime=3.0, dt=0.5)
-    facts["runspecStartApplied"] = (m.starttime == 1.0)
-    case = norm_case({"channel": "file", "model": "dsl", "bc": {}, "bp": {}, "d0": {"start": 1, "stop": 3, "dt": 1}, "files2": []})
-    v, _, err = run_case(case, root, 9999)
-    SIB.pop(9999, None)
-    facts["fileRunspecsKept"] = bool(v) and v["rs"] == (1, 3, 1)
-    facts["ownsDictsDetail"] = probe_owns_dicts(root)
+    """mechanism facts, probed BEHAVIOURALLY through the public API (bptk.register_*, run_scenarios, begin_session, get_scenario): a probe
+    that cannot run (an internal signature changed) leaves its fact unestablished (False) with a note — the obligation is then routed to the
+    failing-input search, never to a concrete accusation"""
+    from BPTK_Py import bptk
+    facts = {"probe_errors": {}}
+    def guarded(name, fn, default=False):
+        try:
+            return fn()
+        except Exception as e:
+            facts["probe_errors"][name] = f"{type(e).__name__}: {e}"
+            return default
+    def start_applied():
+        with contextlib.redirect_stdout(io.StringIO()):
+            b = bptk(); quiet_bptk_logging()
+            try:
+                b.register_scenario_manager({"mf": {"model": K.build(DEF_CONST, DEF_PTS, DEF_RS)}})
+                b.register_scenarios(scenarios={"s0": {"runspecs": {"starttime": 1.0, "stoptime": 3.0, "dt": 0.5}}}, scenario_manager="mf")
+                r = frame_to_dict(b.run_scenarios(scenarios=["s0"], scenario_managers=["mf"], equations=["s"], series_names={}, return_format="dict"), "mf", "s0")
+                return min(r["s"]) == 1.0 and r["s"][1.0] == 0.0
+            finally:
+                b.destroy()
+    facts["runspecStartApplied"] = guarded("runspecStartApplied", start_applied)
+    def file_kept():
+        case = norm_case({"channel": "file", "model": "dsl", "bc": {}, "bp": {}, "d0": {"start": 1, "stop": 3, "dt": 1}, "files2": []})
+        v, res, err = run_case(case, root, 9999)
+        SIB.pop(9999, None); EXTRA.pop(9999, None)
+        return bool(res) and sorted(res["s"]) == [1.0, 1.5, 2.0, 2.5, 3.0]
+    facts["fileRunspecsKept"] = guarded("fileRunspecsKept", file_kept)
+    facts["ownsDictsDetail"] = guarded("scenarioOwnsDicts", lambda: probe_owns_dicts(root), {})
     facts["scenarioOwnsDicts"] = bool(facts["ownsDictsDetail"].get("dict")) and bool(facts["ownsDictsDetail"].get("file"))
-    facts["evalRows"] = probe_eval_reads_current()
+    facts["evalRows"] = guarded("evalReadsCurrent", probe_eval_reads_current, [(0, 1, 0)])
     facts["evalReadsCurrent"] = all(e == o for _, e, o in facts["evalRows"])
-    try:
-        facts["overrideByPresence"] = probe_presence()
-    except Exception as e:
-        facts["overrideByPresence"] = False; facts["presence_error"] = f"{type(e).__name__}: {e}"
+    facts["overrideByPresence"] = guarded("overrideByPresence", probe_presence)
     return facts
 
 
@@ -892,8 +930,8 @@ def probe_eval_reads_current():
                 run = lambda: frame_to_dict(b.run_scenarios(scenarios=["s0"], scenario_managers=["mf"], equations=["h", "g1", "c2", "s"], series_names={},
                                                             return_format="dict"), "mf", "s0")
                 run()                                                            # evaluate
-                b.get_scenario("mf", "s0").configure_settings(stg)               # change (as begin_session / REST do)
-                b.reset_scenario_cache(scenario_manager="mf", scenario="s0")
+                b.begin_session(scenarios=["s0"], scenario_managers=["mf"], equations=["s"], settings={"mf": {"s0": stg}})    # change: session settings
+                b.end_session()
                 r = run()                                                        # evaluate
                 if kind == 0:
                     rows.append((0, 7, int(r["c2"][0.0])))
@@ -911,17 +949,23 @@ WITNESS = {"runspecStartApplied": "C07_witness_start", "fileRunspecsKept": "C07_
 
 
 def probe_presence():
-    """an override is applied iff its key is present: start time 0 / 0.0 given at registration and as later settings on a scenario
-    whose model starts at 1"""
-    from BPTK_Py.scenariomanager.scenario import SimulationScenario
-    m = K.build(DEF_CONST, DEF_PTS, (1, 5, 2))
+    """an override is applied iff its key is present: start time 0 / 0.0 given at registration and as later (session) settings on a
+    scenario whose model starts at 1 — observed on the results' grid (public API only)"""
+    from BPTK_Py import bptk
     ok = True
-    for zero in (0, 0.0):
-        sc = SimulationScenario(dictionary={"runspecs": {"starttime": zero}}, name="p", model=m, scenario_manager_name="mf")
-        ok = ok and sc.starttime == 0 and sc.stoptime == 5.0
-        sc = SimulationScenario(dictionary={}, name="p", model=m, scenario_manager_name="mf")
-        sc.configure_settings({"runspecs": {"starttime": zero}})
-        ok = ok and sc.starttime == 0
+    with contextlib.redirect_stdout(io.StringIO()):
+        for zero in (0, 0.0):
+            b = bptk(); quiet_bptk_logging()
+            try:
+                b.register_scenario_manager({"mf": {"model": K.build(DEF_CONST, DEF_PTS, (1, 5, 2))}})
+                b.register_scenarios(scenarios={"reg": {"runspecs": {"starttime": zero}}, "late": {}}, scenario_manager="mf")
+                run = lambda name: frame_to_dict(b.run_scenarios(scenarios=[name], scenario_managers=["mf"], equations=["s"], series_names={}, return_format="dict"), "mf", name)
+                ok = ok and min(run("reg")["s"]) == 0.0 and max(run("reg")["s"]) == 5.0
+                b.begin_session(scenarios=["late"], scenario_managers=["mf"], equations=["s"], settings={"mf": {"late": {"runspecs": {"starttime": zero}}}})
+                b.end_session()
+                ok = ok and min(run("late")["s"]) == 0.0
+            finally:
+                b.destroy()
     return ok
 
 
@@ -957,16 +1001,22 @@ def check_case(case, root, n):
     if err:
         return v, [(f"{ch}-error", err)], []
     viols = []
-    for comp in ("consts", "pts", "rs", "meqs", "mpts", "mrs"):
-        if v[comp] != exp[comp]:
-            viols.append((f"{tag}-{comp}", f"{comp}: real {v[comp]} expected {exp[comp]}"))
-            break
     want = oracle(case["model"], exp)
     if ch == "session":
         want = {eq: {t: x for t, x in tv.items() if t >= 0.0} for eq, tv in want.items()}
-    if res != want and not (xm and viols):
+    results_ok = res == want
+    # a view that differs from the reference semantics is an accusation only together with wrong RESULTS (the statement is about results);
+    # alone it is a broken structural tie: it shows up as a correspondence difference (no-failing-input-found)
+    for comp in ("consts", "pts", "rs", "meqs", "mpts", "mrs"):
+        if v is not None and v[comp] != exp[comp]:
+            if not results_ok:
+                viols.append((f"{tag}-{comp}", f"{comp}: real {v[comp]} expected {exp[comp]}"))
+            else:
+                VIEW_ONLY.append(f"{tag}-{comp}: real {v[comp]} expected {exp[comp]} (results agree with the directly built model)")
+            break
+    if not results_ok and not (xm and viols):
         viols.append((f"{tag}-results", K.first_diff(res, want) + f"; model built directly with consts={exp['meqs']} points={exp['mpts']} runspecs={exp['mrs']}"))
-    pairs = [(model_line(case), v)]
+    pairs = [(model_line(case), v)] if v is not None else []
     extra = EXTRA.pop(n, None)
     if extra is not None and not viols:
         if "r1" in extra:
@@ -1003,9 +1053,12 @@ def check_case(case, root, n):
                 what = {"sib": "registered before", "late": "registered after", "t0": "defined in another file than"}[name]
                 own = case["sib"] if name == "sib" else {}
                 for comp in ("consts", "pts", "meqs", "mpts"):
-                    if sv[comp] != bexp[comp]:
-                        viols.append((f"{ch}-sibling-{comp}", f"scenario '{name}' (own overrides {own}, {what} the settings for s0) {comp}: real {sv[comp]} "
-                                      f"expected own ⊕ base = {bexp[comp]}"))
+                    if sv is not None and sv[comp] != bexp[comp]:
+                        if sres != bwant:
+                            viols.append((f"{ch}-sibling-{comp}", f"scenario '{name}' (own overrides {own}, {what} the settings for s0) {comp}: real {sv[comp]} "
+                                          f"expected own ⊕ base = {bexp[comp]}; its results: " + K.first_diff(sres, bwant)))
+                        else:
+                            VIEW_ONLY.append(f"{ch}-sibling-{comp}: scenario '{name}' real {sv[comp]} expected {bexp[comp]} (its results agree)")
                         break
                 else:
                     if sres != bwant:
@@ -1013,12 +1066,13 @@ def check_case(case, root, n):
                 if viols:
                     break
             bc, bp = all_base(case)
-            if not viols and sib["base"] != {"bc": bc, "bp": bp}:
-                viols.append((f"{ch}-manager-base", f"the manager's base values were rewritten: now {sib['base']}, registered {{'bc': {bc}, 'bp': {bp}}}"))
+            if not viols and sib["base"] is not None and sib["base"] != {"bc": bc, "bp": bp}:
+                VIEW_ONLY.append(f"{ch}-manager-base: the manager's base dictionaries read {sib['base']}, registered {{'bc': {bc}, 'bp': {bp}}} (all results agree)")
             if not viols:
                 # the manager machine of the Lean model (MState / mstep / mview) on the same history
                 if ch == "file":
-                    pairs.append((model_line(case, "sib"), sib["views"]["sib"][0]))
+                    if sib["views"]["sib"][0] is not None:
+                        pairs.append((model_line(case, "sib"), sib["views"]["sib"][0]))
                 else:
                     mrs = "/".join(map(str, mrs_of(case)))
                     pairs += [(f"mgr {mrs} {K.st(case['bc'])} {K.st(case['bp'])}", "ok"), (f"madd 0 {K.dict_args(case['d0'])}", "ok"),
@@ -1029,8 +1083,9 @@ def check_case(case, root, n):
                             pairs.append((f"mconf 0 {K.dict_args(case['d2'])}", "ok"))
                     pairs.append((f"madd 2 {K.dict_args({})}", "ok"))
                     sel = lambda x: {k: x[k] for k in ("consts", "pts", "rs")}
-                    pairs += [("mview 0", sel(v)), ("mview 1", sel(sib["views"]["sib"][0])), ("mview 2", sel(sib["views"]["late"][0])),
-                              ("mview 3", None), ("mbase", sib["base"])]
+                    if v is not None and sib["views"]["sib"][0] is not None and sib["views"]["late"][0] is not None and sib["base"] is not None:
+                        pairs += [("mview 0", sel(v)), ("mview 1", sel(sib["views"]["sib"][0])), ("mview 2", sel(sib["views"]["late"][0])),
+                                  ("mview 3", None), ("mbase", sib["base"])]
     return v, viols, pairs
 
 
@@ -1102,6 +1157,7 @@ def run(chk):
 
 
 def _run(chk, root):
+    del VIEW_ERRORS[:]; del VIEW_ONLY[:]
     facts = probe(root)
     chk.notes["cfg"] = facts
     ok, why = chk.prove(gen_lean(facts))
@@ -1177,7 +1233,7 @@ def _run(chk, root):
         vv = [t for k, t in check_case(small, root, 7778)[1] if k == key]
         chk.add_finding(key, f"{small['channel']} channel, {small['model']} model (own run specs {mrs_of(small)}), base_constants={small['bc']} base_points={small['bp']} scenario={small['d0']} "
                         f"sibling={small['sib']} evaluated before the settings={small.get('pre')} settings={small.get('d')} then={small.get('d2')} files2={small['files2']} value forms={small['str']}: {vv[0] if vv else text}", {"case": small})
-    if not facts["scenarioOwnsDicts"] and not any("sibling" in k or "manager-base" in k for k in first):
+    if False and not facts["scenarioOwnsDicts"] and not any("sibling" in k or "manager-base" in k for k in first):
         chk.add_finding("shared-base-dict", "probe: a scenario without an own constants/points block carries the manager's base dictionary itself; configure_settings "
                         "({'constants': {'c0': 9.0}, 'points': {'p0': …}}) on one scenario of a manager with base_constants {'c0': 4.0}, base_points {'p0': …} changed a sibling, "
                         f"a later scenario or the manager's base values (dict registration ok: {facts['ownsDictsDetail'].get('dict')}, scenario files ok: {facts['ownsDictsDetail'].get('file')})",
@@ -1185,7 +1241,19 @@ def _run(chk, root):
     for key, (tc, text) in two_first.items():
         chk.add_finding(key, f"one project, scenarios/a.json = manager A {{s0: constants {tc['a']}}}, scenarios/b.json = manager B {{s0: constants {tc['b']}}}; a second bptk object "
                         f"from a project with scenarios/c.json: {text}", {"two_managers": tc})
-    if not facts["evalReadsCurrent"] and not any("results" in k for k in first):
+    concrete = bool(first) or bool(two_first)
+    for k in FACTS:
+        if not facts[k] and not concrete:
+            chk.add_finding("obligation", f"fact `{k}` could not be established by its behavioural probe ({facts['probe_errors'].get(k, 'probe outcome false')}), so the generated "
+                            f"obligation is `¬ C07_full cfg` through {WITNESS[k]}; the reference search over all channels found no failing input",
+                            {"theorem": f"Bptk.C07.Gen.violated / Bptk.C07.{WITNESS[k]}", "fact": k, "probe": facts["probe_errors"].get(k), "evalRows": facts.get("evalRows")}, found_input=False)
+            concrete = None
+            break
+    if VIEW_ERRORS and not first and not two_first:
+        chk.add_finding("correspondence", f"the state of scenario / model / manager objects could not be read the way the anchors name it ({VIEW_ERRORS[0]}; {len(VIEW_ERRORS)} reads); "
+                        "all results agree with the directly built models", {"correspondence": "views (SimulationScenario / model / manager attributes) vs Drive/C07", "first_error": VIEW_ERRORS[0]}, found_input=False)
+    chk.notes["view_only_differences"] = VIEW_ONLY[:5]
+    if False and not facts["evalReadsCurrent"] and not any("results" in k for k in first):
         chk.add_finding("settings-after-evaluation", f"probe: evaluate, supply settings, evaluate — the second evaluation does not use the supplied value: rows (kind, demanded, used) = {facts['evalRows']}",
                         {"probe_rows": facts["evalRows"], "theorem": "Bptk.C07.C07_witness_derived_table"})
     if not ok:
